@@ -4,8 +4,8 @@ package main
 // float model. Everything here is part of the trusted base and is listed in evidence.
 
 import (
-	"go/token"
 	"fmt"
+	"go/token"
 	"go/types"
 	"sort"
 	"strings"
